@@ -186,6 +186,8 @@ def run_check(H, tier, seed, only_family=None, jobs=None, verbose=True):
         fams = [f for f in fams if only_family in f.name]
     _FAMS = fams
     total_budget = getattr(H, "BUDGET_S", {}).get(tier, 120 if tier == "quick" else 900)
+    if tier == "quick":
+        total_budget = max(total_budget, 300)  # head-room for slower machines; required families are sized for ~1/6 of this
     hard_deadline = t_start + total_budget
 
     per = [dict(name=f.name, bounds=f.bounds, required=f.required, paths=0, checks=0, solver_s=0.0, obligations=0,
@@ -202,16 +204,31 @@ def run_check(H, tier, seed, only_family=None, jobs=None, verbose=True):
     inflight = {}
     confirmed = {}
     queue = []  # (fi, prefix)
+    # required families first; optional families are started only once every required family is
+    # exhausted, and only while the soft budget lasts
+    optional_waiting = []
     for i, f in enumerate(fams):
-        queue.append((i, ()))
         per[i]["pending"] = 1
+        if f.required:
+            queue.append((i, ()))
+        else:
+            optional_waiting.append((i, ()))
+    soft_budget = getattr(H, "SOFT_BUDGET_S", {}).get(tier, 60 if tier == "quick" else 600)
+    soft_deadline = t_start + soft_budget
     slice_s = 1.5 if tier == "quick" else 4.0
     tid = 0
     try:
-        while queue or inflight:
+        while queue or inflight or optional_waiting:
             now = time.time()
             if now > hard_deadline:
                 break
+            if optional_waiting and not queue and not inflight:
+                if now < soft_deadline:
+                    queue.extend(optional_waiting)
+                    hard_deadline = min(hard_deadline, soft_deadline)  # optional work never runs past the soft budget
+                optional_waiting = []
+                if not queue:
+                    break
             while queue and len(inflight) < jobs * 2:
                 fi, prefix = queue.pop(0)
                 # initial tasks get a short slice so the tree fans out quickly
